@@ -194,16 +194,21 @@ Section Step.
       end
     end.
 
-  (* Repeated stepping as every consumer does it (player, ovnisort, ovnidump):
-     step until End or an error.  An Ok step that does not move the cursor
-     forward although an event was loaded is reported as NoProgress: the C
-     loop would go on forever (or backwards).  [VFuel] = the bound was not
-     enough; the theorems show it never happens with fuel = length + 1. *)
+End Step.
+
+(* Repeated stepping as every consumer does it (player, ovnisort, ovnidump):
+   step until End or an error.  An Ok step that does not move the cursor
+   forward although an event was loaded is reported as NoProgress: the C
+   loop would go on forever (or backwards).  [VFuel] = the bound was not
+   enough; the theorems show it never happens with fuel = length + 1. *)
+Section Walk.
+  Variable step : stream -> step_res.
+
   Fixpoint walk (fuel : nat) (st : stream) : verdict * list ev_rec :=
     match fuel with
     | O => (VFuel, [])
     | S f =>
-      match step_with st with
+      match step st with
       | ROk st' =>
         if s_cur st && (s_offset st' <=? s_offset st) then (VNoProgress (s_offset st'), [])
         else let (v, evs) := walk f st' in
@@ -214,21 +219,21 @@ Section Step.
       | RSOverflow => (VSOverflow, [])
       end
     end.
-End Step.
+End Walk.
 
 Definition stream_step : stream -> step_res := step_with guard_new.
 
 Inductive run_res := RunLoadErr (e : load_err) | Run (v : verdict) (evs : list ev_rec).
 
 (* load + walk; a stream without events (inactive after loading) is never stepped *)
-Definition run_with (guard : bytes -> evp -> Z -> guard_res) (fuel : nat) (bs : bytes) (junk : Z -> Z) (unsorted : bool) : run_res :=
+Definition run_with (step : stream -> step_res) (fuel : nat) (bs : bytes) (junk : Z -> Z) (unsorted : bool) : run_res :=
   match load_obs bs junk unsorted with
   | LoadErr e => RunLoadErr e
-  | Loaded st => if s_active st then let (v, evs) := walk guard fuel st in Run v evs else Run VEnd []
+  | Loaded st => if s_active st then let (v, evs) := walk step fuel st in Run v evs else Run VEnd []
   end.
 
 Definition run (bs : bytes) (junk : Z -> Z) (unsorted : bool) : run_res :=
-  run_with guard_new (S (length bs)) bs junk unsorted.
+  run_with stream_step (S (length bs)) bs junk unsorted.
 
 (* what ovniemu/ovnidump make of it: exit status 0 only when every stream reached its end *)
 Definition accepted (r : run_res) : bool :=
@@ -274,8 +279,17 @@ Section Old.
       else if cast_int64 (eoff ev + sz) >? blen bs then GIncomplete else GFits
     end.
 
-  Definition stream_step_old : stream -> step_res := step_with guard_old.
+  Definition in_int64 (z : Z) : bool := (- 9223372036854775808 <=? z) && (z <=? 9223372036854775807).
+
+  (* `stream->deltaclock = clock - stream->lastclock;` in signed 64-bit arithmetic: with an unsorted
+     consumer the difference of two on-disk clocks need not fit (repaired by
+     patches/fix-c19-clock-delta-overflow.diff: computed with wrap-around; the field is write-only) *)
+  Definition stream_step_old (st : stream) : step_res :=
+    match step_with guard_old st with
+    | ROk st' => if in_int64 (s_lastclock st' - s_lastclock st) then ROk st' else RSOverflow
+    | r => r
+    end.
 
   Definition run_old (bs : bytes) (junk : Z -> Z) (unsorted : bool) : run_res :=
-    run_with guard_old (S (length bs)) bs junk unsorted.
+    run_with stream_step_old (S (length bs)) bs junk unsorted.
 End Old.
